@@ -157,6 +157,25 @@ def compute_refactoring(project, st):
             if not offs:
                 return None
             return inline.create_inline(project, res, offs[st.get("occ", 0) % len(offs)]).get_changes()
+        if st["kind"] == "change_signature":
+            from rope.refactor import change_signature as csig
+
+            m = re.search(r"^\s*def\s+(%s)\b" % re.escape(st["ident"]), res.read(), re.M)
+            if m is None:
+                return None
+            changers = []
+            for c in st["changers"]:
+                if c[0] == "remove":
+                    changers.append(csig.ArgumentRemover(c[1]))
+                elif c[0] == "add":
+                    changers.append(csig.ArgumentAdder(c[1], c[2], c[3], c[4]))
+                elif c[0] == "normalize":
+                    changers.append(csig.ArgumentNormalizer())
+                elif c[0] == "reorder":
+                    changers.append(csig.ArgumentReorderer(c[1]))
+                elif c[0] == "inline_default":
+                    changers.append(csig.ArgumentDefaultInliner(c[1]))
+            return csig.ChangeSignature(project, res, m.start(1)).get_changes(changers)
         if st["kind"] == "to_package":
             from rope.refactor import topackage
 
@@ -165,11 +184,16 @@ def compute_refactoring(project, st):
             if res.parent.has_child(res.name[:-3]):
                 return None
             return topackage.ModuleToPackage(project, res).get_changes()
-    except exceptions.RopeError:
+    except exceptions.RopeError as e:
+        LAST_REFUSAL[0] = repr(e)[:300]
         return None
     except Exception as e:  # internal errors on odd requests are C09's business
+        LAST_REFUSAL[0] = repr(e)[:300]
         return None
     return None
+
+
+LAST_REFUSAL = [None]
 
 
 def gen_history_step(rng, model: HistoryModel, tree: TreeModel, classes, swarm, next_id, program=False):
